@@ -287,8 +287,8 @@ async def drive_ap2(history):
 
 async def drive_ap2_deep(history):
     """AP2Session.start_keep_alive on top of the REAL RtspSession and HttpConnection (fake
-    transport).  Device behaviour per keep-alive: O = answers 200, E = answers 500 (an error
-    status), F = stays silent.  The unchanged code counts E and F as failed keep-alives."""
+    transport).  Device behaviour per keep-alive: O = answers 200, o = answers 200 and the
+    network delivers the answer in two reads, E = answers 500 (an error status), F = stays silent.  The unchanged code counts E and F as failed keep-alives."""
     from pyatv.protocols.airplay.ap2_session import AP2Session
     from pyatv.auth.hap_pairing import NO_CREDENTIALS
     from pyatv.settings import InfoSettings
@@ -326,6 +326,17 @@ async def drive_ap2_deep(history):
     session.connection = conn
     session.rtsp = RtspSession(conn)
     session.start_keep_alive(sp)
+    raw_received = conn.data_received
+
+    def deliver(data):
+        # what a selector transport does when the protocol's data_received raises: fatal error,
+        # the transport is closed and connection_lost(exc) is called
+        try:
+            raw_received(data)
+        except Exception as ex:  # noqa
+            trace.append("ProtocolRaised:" + type(ex).__name__)
+            conn.connection_lost(ex)
+    conn.data_received = deliver
     seen = 0
     for ev in history:
         for _ in range(4000):
@@ -343,6 +354,13 @@ async def drive_ap2_deep(history):
                 cseq = line.split(b":", 1)[1].strip()
         if ev == "O":
             conn.data_received(b"RTSP/1.0 200 OK\r\nCSeq: " + cseq + b"\r\nContent-Length: 0\r\n\r\n")
+            await asyncio.sleep(0)
+        elif ev == "o":
+            # the same answer, delivered by the network in two reads
+            resp = b"RTSP/1.0 200 OK\r\nCSeq: " + cseq + b"\r\nContent-Length: 0\r\n\r\n"
+            conn.data_received(resp[:11])
+            await asyncio.sleep(0.01)
+            conn.data_received(resp[11:])
             await asyncio.sleep(0)
         elif ev == "E":
             conn.data_received(b"RTSP/1.0 500 Internal Server Error\r\nCSeq: " + cseq + b"\r\nContent-Length: 0\r\n\r\n")
@@ -369,9 +387,12 @@ async def drive_ap2_deep(history):
     return trace
 
 
-async def drive_mrp_deep(history):
+async def drive_mrp_deep(history, drop=None):
     """MrpProtocol.enable_heartbeat on top of the REAL MrpConnection with a device listener: after
-    the fatal run the device listener must be told exactly once that the connection is gone."""
+    the fatal run the device listener must be told exactly once that the connection is gone.
+    drop = "inflight" / "sleeping": after the history the DEVICE drops the TCP connection (the
+    transport reports connection_lost) while a keep-alive is outstanding / while the loop sleeps:
+    keep-alives must stop and the loss is reported exactly once (by the connection)."""
     from pyatv.protocols.mrp import messages, protobuf
     from pyatv.protocols.mrp.connection import MrpConnection
     from pyatv.protocols.mrp.protocol import MrpProtocol, ProtocolState
@@ -416,6 +437,21 @@ async def drive_mrp_deep(history):
     conn._transport = tr
     proto = MrpProtocol(conn, SRPAuthHandler(), MutableService("id", Protocol.MRP, 0, {}), InfoSettings())
     proto._state = ProtocolState.READY
+    # attempts are counted where the keep-alive loop hands its message over (an attempt on a dead
+    # connection never reaches the transport) and close() calls where the failure path ends
+    attempts = []
+    closes = []
+    real_sar, real_close = proto.send_and_receive, conn.close
+
+    async def counting_sar(message, *a, **k):
+        attempts.append(1)
+        return await real_sar(message, *a, **k)
+
+    def counting_close():
+        closes.append(1)
+        real_close()
+    proto.send_and_receive = counting_sar
+    conn.close = counting_close
     proto.enable_heartbeat()
     trace = []
     seen = 0
@@ -439,6 +475,33 @@ async def drive_mrp_deep(history):
             await asyncio.sleep(0)
         else:
             await asyncio.sleep(5.5)
+    if drop and not tr.closed:
+        if drop == "inflight":
+            for _ in range(2000):
+                if len(sent) > seen or tr.closed:
+                    break
+                await asyncio.sleep(0.1)
+            if len(sent) > seen:
+                trace.append("Send")
+                seen = len(sent)
+        if not tr.closed:
+            tr.closed = True
+            conn.connection_lost(ConnectionResetError("peer dropped the connection"))
+            n = len(sent)
+            nrep = len(reports)
+            na, nc = len(attempts), len(closes)
+            await asyncio.sleep(300)
+            trace.append("Finish")
+            if len(sent) != n or len(attempts) != na:
+                trace.append("SendAfterDrop")
+            if len(closes) != nc:
+                trace.append("FailureAfterDrop")
+            if len(reports) != max(nrep, 1):
+                trace.append("ReportAfterDrop")
+            proto.stop()
+            for _ in range(5):
+                await asyncio.sleep(0)
+            return trace, list(reports), tr.closed
     if tr.closed:
         trace.append("Failure")
         n = len(sent)
@@ -472,21 +535,24 @@ def callsites(ctx, cases_mrp, cases_ap2):
                 cases_mrp.append((r, hist, [t for t in trace if t != "ActivityAfterFailure"], "Failure" in trace))
     # the real transport-facing classes below the keep-alive
     for n in range(1, maxlen):
-        for hist in itertools.product("OEF", repeat=n):
+        for hist in itertools.product("OoEF", repeat=n):
             hist = "".join(hist)
-            mh = hist.replace("E", "F")
+            mh = hist.replace("E", "F").replace("o", "O")
             if model_py(r, mh[:-1]):
                 continue
             trace = vloop.run(drive_ap2_deep, hist)
             ctx.case(("ap2-deep", hist), nontrivial=True, sample={"site": "AP2Session keep-alive over real RtspSession/HttpConnection", "device": hist, "trace": trace} if hist == "OEF"[:n] else None)
             ctx.count("ap2-deep")
-            errs = [e for e in oracle(r, mh, [t for t in trace if t != "ActivityAfterFailure"], True) if e != "finish-not-once-on-cancel"]
+            core = [t for t in trace if t in ("Send", "Failure", "Finish")]
+            errs = [e for e in oracle(r, mh, core, True) if e != "finish-not-once-on-cancel"]
             if "ActivityAfterFailure" in trace:
                 errs.append("activity-after-failure")
+            if any(t.startswith("ProtocolRaised") for t in trace):
+                errs.append("well-formed-answer-kills-connection")
             for e in errs:
                 ctx.violation("C19:ap2-callsite:" + e, "AP2 keep-alive over the real RTSP/HTTP classes: " + e,
                               {"site": "ap2-deep", "device": hist, "impl_trace": trace})
-            cases_mrp.append((r, mh, [t for t in trace if t != "ActivityAfterFailure"], "Failure" in trace))
+            cases_mrp.append((r, mh, core, "Failure" in trace))
     for n in range(1, maxlen):
         for hist in itertools.product("OF", repeat=n):
             hist = "".join(hist)
@@ -506,6 +572,29 @@ def callsites(ctx, cases_mrp, cases_ap2):
                 ctx.violation("C19:mrp-callsite:" + e, "MRP keep-alive over the real MrpConnection: " + e,
                               {"site": "mrp-deep", "device": hist, "impl_trace": trace, "listener_reports": reports})
             cases_mrp.append((r, hist, [t for t in trace if t != "ActivityAfterFailure"], "Failure" in trace))
+    # the device drops the connection while a keep-alive is outstanding / while the loop sleeps
+    for n in range(0, maxlen - 1):
+        for hist in itertools.product("OF", repeat=n):
+            hist = "".join(hist)
+            if model_py(r, hist):
+                continue
+            for drop in ("inflight", "sleeping"):
+                if drop == "sleeping" and hist.endswith("F"):
+                    continue      # a failed keep-alive is retried at once: the loop does not sleep there
+                trace, reports, closed = vloop.run(drive_mrp_deep, hist, drop)
+                ctx.case(("mrp-drop", hist, drop), nontrivial=True, sample={"site": "device drops the connection during MRP keep-alive", "device": hist, "when": drop, "trace": trace, "listener_reports": reports} if hist == "OF" else None)
+                ctx.count("mrp-drop-" + drop)
+                errs = []
+                if "SendAfterDrop" in trace:
+                    errs.append("keepalive-after-connection-lost")
+                if "FailureAfterDrop" in trace:
+                    errs.append("failure-declared-after-connection-lost")
+                if "ReportAfterDrop" in trace or len(reports) != 1:
+                    errs.append("device-listener-told-%d-times" % len(reports))
+                for e in errs:
+                    ctx.violation("C19:mrp-callsite:" + e, "device drops the connection during MRP keep-alive (%s): %s" % (drop, e),
+                                  {"site": "mrp-drop", "device": hist, "when": drop, "impl_trace": trace, "listener_reports": reports})
+                cases_mrp.append((r, hist + ("C" if drop == "inflight" else "S"), [t for t in trace if t in ("Send", "Finish")], False))
     # user closes the connection (stop) while a keep-alive is outstanding, after every live prefix
     for n in range(0, maxlen):
         for hist in itertools.product("OF", repeat=n):
@@ -672,6 +761,10 @@ def replay(ctx, path):
         trace = vloop.run(drive_mrp, rp["device"], None, True)
         print("device=%s trace=%s" % (rp["device"], trace))
         return 1 if ("SendAfterStop" in trace or "FailureAfterStop" in trace) else 0
+    elif site == "mrp-drop":
+        trace, reports, closed = vloop.run(drive_mrp_deep, rp["device"], rp["when"])
+        print("device=%s when=%s trace=%s listener reports=%s" % (rp["device"], rp["when"], trace, reports))
+        return 1 if ("SendAfterDrop" in trace or "FailureAfterDrop" in trace or "ReportAfterDrop" in trace or len(reports) != 1) else 0
     elif site == "ap2":
         trace, done = vloop.run(drive_ap2, rp["history"])
         errs = oracle(r, rp["history"], trace, done)
@@ -679,7 +772,7 @@ def replay(ctx, path):
         return 1 if errs else 0
     elif site == "ap2-deep":
         trace = vloop.run(drive_ap2_deep, rp["device"])
-        hist = rp["device"].replace("E", "F")
+        hist = rp["device"].replace("E", "F").replace("o", "O")
     elif site == "mrp-deep":
         trace, reports, closed = vloop.run(drive_mrp_deep, rp["device"])
         hist = rp["device"]
@@ -689,8 +782,10 @@ def replay(ctx, path):
     else:
         print(json.dumps(d, indent=1)[:3000])
         return 1
-    errs = [e for e in oracle(r, hist, [t for t in trace if t != "ActivityAfterFailure"], True) if e != "finish-not-once-on-cancel"]
+    errs = [e for e in oracle(r, hist, [t for t in trace if t in ("Send", "Failure", "Finish")], True) if e != "finish-not-once-on-cancel"]
     if "ActivityAfterFailure" in trace:
         errs.append("activity-after-failure")
+    if any(t.startswith("ProtocolRaised") for t in trace):
+        errs.append("well-formed-answer-kills-connection")
     print("device=%s trace=%s property-errors=%s" % (rp.get("device"), trace, errs))
     return 1 if errs else 0
